@@ -657,3 +657,14 @@ package kbin
 //@   nopanic
 //@   modifies b.Src, b.bad
 //@   ensures len(b.Src) <= old(len(b.Src)) && (old(b.bad) ==> b.bad)
+
+// the compact nullable forms: null is the single byte 0 (uvarint 0); a non-nil value - EMPTY INCLUDED - is the
+// compact form (length+1 as uvarint, then the bytes), so an empty slice and null stay distinguishable on the wire
+//@ func AppendCompactNullableBytes(dst []byte, b []byte) (out []byte)
+//@   mode int
+//@   requires disjoint(b, dst)
+//@   prop C17
+//@   nopanic
+//@   modifies elems(dst)
+//@   ensures [null-is-uvarint-zero] b == nil ==> (len(out) == len(dst) + uvlen32(0) && out[len(dst)] == uvbyte32(0, 0))
+//@   ensures [non-nil-is-the-compact-form-even-when-empty] b != nil ==> (len(out) == len(dst) + uvlen32(1+uint32(len(b))) + len(b) && out[len(dst)] == uvbyte32(1+uint32(len(b)), 0))
